@@ -1,4 +1,4 @@
-import sys; sys.path.insert(0,'/tmp/vx2/tool')
+import sys; sys.path.insert(0,'/tmp/vx3/tool')
 from xf import *
 fresh()
 PROTO=open('/verif/proto/name_parse_proved.rs').read()
@@ -48,6 +48,19 @@ impl VxToBe for u32 { type Arr = [u8;4];
   #[verifier::external_body]
   fn vx_to_be_bytes(self) -> (r: [u8;4]) ensures r@ == enc32(self) { self.to_be_bytes() } }
 
+pub uninterp spec fn cow_owned_rel<B: ?Sized + ToOwned>(c: Cow<B>, r: B::Owned) -> bool;
+#[verifier::external_body]
+pub broadcast proof fn axiom_cow_owned_bytes(c: Cow<[u8]>, r: Vec<u8>)
+    ensures #[trigger] cow_owned_rel::<[u8]>(c, r) ==> r@ == c@ {}
+pub assume_specification<'a, B: ?Sized + ToOwned> [std::borrow::Cow::<'a, B>::into_owned] (c: Cow<'a, B>) -> (r: <B as ToOwned>::Owned)
+    ensures cow_owned_rel::<B>(c, r);
+pub uninterp spec fn cow_deref_rel<B: ?Sized + ToOwned>(c: Cow<B>, r: &B) -> bool;
+#[verifier::external_body]
+pub broadcast proof fn axiom_cow_deref_bytes(c: Cow<[u8]>, r: &[u8])
+    ensures #[trigger] cow_deref_rel::<[u8]>(c, r) ==> r@ == c@ {}
+pub assume_specification<'a, 'b, B: ?Sized + ToOwned> [<Cow<'a, B> as std::ops::Deref>::deref] (c: &'b Cow<'a, B>) -> (r: &'b B)
+    ensures cow_deref_rel::<B>(*c, r);
+pub broadcast group vx_axioms { axiom_cow_deref_bytes, axiom_cow_owned_bytes, axiom_into_bytes_view_slice }
 pub uninterp spec fn label_view(l: &Label) -> Seq<u8>;
 pub uninterp spec fn into_bytes_view<T>(t: T) -> Seq<u8>;
 #[verifier::external_body]
@@ -85,7 +98,7 @@ s=s.replace("""    fn parse(data: &'a [u8], position: &mut usize) -> crate::Resu
         ensures r is Ok ==> *old(position) <= *final(position) <= data.len();""")
 s=s.replace("""    fn write_to<T: Write>(&self, out: &mut T) -> crate::Result<()>;""","""    spec fn wf_enc(&self) -> Seq<u8>;
     fn write_to<T: Write>(&self, out: &mut T) -> (r: crate::Result<()>)
-        ensures r is Ok ==> (*final(out)).written() == (*old(out)).written() + self.wf_enc();""")
+        ensures r is Ok ==> (*final(out)).written() =~= (*old(out)).written() + self.wf_enc();""")
 s=s.replace("""    ) -> crate::Result<()> {
         self.write_to(out)
     }""","""    ) -> crate::Result<()> {
